@@ -36,7 +36,7 @@ def plan(tier, seed):
     floor = {_lab(l): 1 for l in REQUIRED_LABELS}
     if tier == 'quick':
         floor.update({'distinct_nontrivial': 1500, 'commits': 5000})
-        return {'n': 14000, 'deadline': 150, 'floor': floor}
+        return {'n': 10000, 'deadline': 150, 'floor': floor}
     floor.update({'distinct_nontrivial': 40000, 'commits': 100000})
     return {'n': 400000, 'deadline': 560, 'floor': floor}
 
@@ -84,6 +84,21 @@ def run_case(ctx, seed, idx, tier):
     ])
     clauses, qn, na = gen.gen_control_case(rng, weights=w, allow_cut_p=0.4)
     c = {'random_bodies': 1}
+    if rng.random() < 0.15:
+        # many control clauses in ONE compilation unit (labels / counters of the code generator run past 9),
+        # the queried predicate somewhere among them
+        others = []
+        for k in range(rng.choice([4, 8, 12])):
+            ocl, _, _ = gen.gen_control_case(rng, weights=w, allow_cut_p=0.3, maxdepth=3)
+            ren = 't%d' % k
+            for h, b in ocl:
+                if h[1] == 't':
+                    others.append((('c', ren, h[2]) if h[0] == 'c' else ('a', ren), b))
+        facts = [cl for cl in clauses if cl[0][1] not in ('t', 'top')]
+        mine = [cl for cl in clauses if cl[0][1] in ('t', 'top')]
+        pos = rng.randrange(len(others) + 1)
+        clauses = facts + others[:pos] + mine + others[pos:]
+        c['batched_programs'] = 1
     minimal = rng.random() < 0.85
     c['minimal_parentheses' if minimal else 'full_parentheses'] = 1
     return control.run_control(ctx, clauses, qn, na, rng, c, _nt, minimal=minimal,
